@@ -181,6 +181,15 @@ def bytesinteger_hints(eng, st, args):
     st.assume(inst('shr7_', x=t.select(w.arr, t.sub(hi, t.ONE))))
     st.assume(inst('pow2_step', k=t.mul(I(8), L)))
     st.assume(inst('pow2_pos', k=t.sub(t.mul(I(8), L), t.ONE)))
+    # canonical lemma (C02): the value read from L bytes is below 2^(8L); two L-byte strings with the same value are the same bytes
+    st.assume(inst('be_bound', A=w.arr, ao=w.off, n=L))
+    st.assume(inst('le_bound', A=w.arr, ao=w.off, n=L))
+    d = eng.models.as_bytes(eng, data, st)
+    if d is not None and d.arr.smt() != w.arr.smt():
+        k = t.var('inj!', t.INT)
+        for nm in ('be_injective', 'le_injective'):
+            body = inst(nm, A=d.arr, ao=d.off, Bq=w.arr, bo=w.off, n=L, i=t.sub(k, d.off))
+            st.assume(t.forall([k], body, pats=[[t.select(d.arr, k)]]))
 
 
 def bitsinteger_hints(eng, st, args):
